@@ -257,6 +257,7 @@ Lockstep ==
 DataSmall == {[a |-> 6, b |-> 9]}
 DataSmall2 == {[a |-> 6, b |-> 9], [a |-> 15, b |-> 0]}
 DataReal == {[a |-> 4660, b |-> 43981], [a |-> 65535, b |-> 255]}     \* 0x1234 0xabcd / 0xffff 0x00ff
+DataReal1 == {[a |-> 4660, b |-> 43981]}
 
 (* the symbolic side is not trivially Unknown: a register written from constants/registers only is exact *)
 TypeOK == n \in 0..MaxOps /\ \A r \in R : conc.regs[r] \in 0..(N - 1)
